@@ -161,6 +161,49 @@ Theorem C13_recv_limit_aio : forall m n tail, m < n -> n < 16777216 ->
 Proof. exact aio_recv_limit. Qed.
 Print Assumptions C13_recv_limit_aio.
 
+(* announced = enforced.  The Twisted expressions are translated from the source text on every run
+   (gen_tx_{server,client}_recv_limit = what is assigned to self.MAX_LENGTH, gen_tx_{server,client}_announce_nibble = the
+   high nibble written into handshake octet 2, both as functions of the configured maxMessagePayloadSize m); asyncio: the
+   values RawSocketProtocol.__init__ sets.  For EVERY configured size (not only powers of two) each role enforces exactly
+   2^(9 + the nibble it announces), which is never below the configured size. *)
+Theorem C13_rs_announced_is_enforced : forall m, 512 <= m <= 16777216 ->
+  gen_tx_server_recv_limit m = 2 ^ (9 + gen_tx_server_announce_nibble m) /\
+  gen_tx_client_recv_limit m = 2 ^ (9 + gen_tx_client_announce_nibble m) /\
+  gen_tx_server_announce_nibble m <= 15 /\ gen_tx_client_announce_nibble m <= 15 /\
+  m <= gen_tx_server_recv_limit m /\ m <= gen_tx_client_recv_limit m /\
+  gen_aio_default_max_length = 2 ^ (9 + gen_aio_default_length_exp).
+Proof. exact announced_is_enforced. Qed.
+Print Assumptions C13_rs_announced_is_enforced.
+
+(* the handshake octets of the connection model carry exactly those nibbles *)
+Theorem C13_rs_model_announces_source_nibble : forall c,
+  gen_tx_server_announce_nibble (c_max c) = tx_rexp c - 9 /\ gen_tx_client_announce_nibble (c_max c) = tx_rexp c - 9 /\
+  aio_lexp = gen_aio_default_length_exp /\
+  conn_made {| c_impl := Tx; c_role := Client; c_sers := c_sers c; c_max := c_max c; c_open_raises := c_open_raises c |} =
+    [Write [127; octet2 (gen_tx_client_announce_nibble (c_max c)) (own_ser c); 0; 0]] /\
+  conn_made {| c_impl := Aio; c_role := Client; c_sers := c_sers c; c_max := c_max c; c_open_raises := c_open_raises c |} =
+    [Write [127; octet2 gen_aio_default_length_exp (own_ser c); 0; 0]].
+Proof. exact model_announces_source_nibble. Qed.
+Print Assumptions C13_rs_model_announces_source_nibble.
+
+(* all four implementation x role combinations of the connection machine: the limit in force on incoming frames is
+   2^(9 + announced nibble); a frame up to that size is delivered, one octet more is refused on its header *)
+Theorem C13_rs_recv_limit_is_announced : forall c,
+  512 <= c_max c <= 16777216 -> (c_impl c = Aio -> c_max c = gen_aio_default_max_length) ->
+  recv_max c = 2 ^ (9 + announced_nibble c) /\ announced_nibble c <= 15.
+Proof. exact recv_limit_is_announced. Qed.
+Print Assumptions C13_rs_recv_limit_is_announced.
+
+Theorem C13_rs_announced_boundary : forall c,
+  (forall p, blen p <= recv_max c -> blen p < 16777216 -> recv_max c < 4294967296 ->
+     frame_feed c (FOpen [] None) (encode_frame p) = (FOpen [] None, [FFrame p])) /\
+  (forall n tail, 512 <= c_max c <= 16777216 -> (c_impl c = Aio -> c_max c = gen_aio_default_max_length) ->
+     recv_max c < n -> n < 16777216 ->
+     snd (frame_feed c (FOpen [] None) (enc32 n ++ tail)) =
+       match c_impl c with Tx => [FEscaped EPayloadExceeded] | Aio => [FLose] end).
+Proof. intros c. split; [exact (within_announced_accepted c)|exact (over_announced_rejected c)]. Qed.
+Print Assumptions C13_rs_announced_boundary.
+
 (* ============ WebSocket: subprotocol negotiation ============ *)
 
 (* the server picks the FIRST entry of the client's list it can speak (for any client list, any int()) *)
@@ -278,6 +321,18 @@ Theorem C13_told_once_ws : forall bin raises post,
 Proof. exact ws_told_once. Qed.
 Print Assumptions C13_told_once_ws.
 
+(* asyncio WebSocket adapter (drain end read from the source): whatever mixture of reads and loop iterations - several
+   segments per iteration (burst) or one - the engine is handed the segments in arrival order, i.e. the same octet stream *)
+Theorem C13_ws_adapter_order : forall ins q,
+  snd (adapter_run q (ins ++ [ATurn])) = q ++ received ins.
+Proof. exact adapter_order. Qed.
+Print Assumptions C13_ws_adapter_order.
+
+Theorem C13_ws_adapter_stream : forall ins,
+  concat (snd (adapter_run [] (ins ++ [ATurn]))) = concat (received ins).
+Proof. exact adapter_stream. Qed.
+Print Assumptions C13_ws_adapter_stream.
+
 (* ============ non-vacuity ============ *)
 
 (* a good handshake on each implementation/role, with the reply octets and the negotiated limit *)
@@ -339,4 +394,16 @@ Example C13_ex_ws_told_once :
   snd (ws_run true false [WOpen false; WMessage true (Batch [(1, ROk); (2, RProto); (3, ROk)]); WMessage false (Batch [(4, ROk)]);
                           WClose false; WClose true; WSend (SerOk [1])]) =
     [WSessOpen; WSessMsg 1; WSessMsg 2; WBailout 1002; WBailout 1002; WSessClose false; WRaised ETransportLost].
+Proof. vm_compute. reflexivity. Qed.
+
+(* a configured size that is not a power of two: 1000 -> nibble 1, limit 1024 on both Twisted roles *)
+Example C13_ex_announced :
+  gen_tx_client_announce_nibble 1000 = 1 /\ gen_tx_client_recv_limit 1000 = 1024 /\
+  gen_tx_server_announce_nibble 513 = 1 /\ gen_tx_server_recv_limit 513 = 1024 /\
+  gen_tx_server_recv_limit 512 = 512 /\ gen_tx_client_recv_limit 16777215 = 16777216 /\
+  recv_max {| c_impl := Tx; c_role := Client; c_sers := [1]; c_max := 1000; c_open_raises := false |} = 1024.
+Proof. vm_compute. repeat split; reflexivity. Qed.
+
+Example C13_ex_adapter_burst :
+  snd (adapter_run [] [ARecv [1; 2]; ARecv [3]; ARecv [4; 5]; ATurn; ARecv [6]; ATurn]) = [[1; 2]; [3]; [4; 5]; [6]].
 Proof. vm_compute. reflexivity. Qed.
